@@ -18,6 +18,12 @@ type StubTable struct {
 	M     map[string]string
 	// FailNext makes the next n lookups fail with a temporary error.
 	FailNext int
+	// FailWrites makes the next n SetKey/RemoveKey calls fail (nothing is changed).
+	FailWrites int
+	// AfterLookup, when set, runs in the caller's goroutine after a lookup has
+	// read its value and before it returns (a world can let another operation
+	// happen in its entirety between a lookup and what the caller does next).
+	AfterLookup func(k string)
 }
 
 func (t *StubTable) Init(*config.Map) error { return nil }
@@ -37,6 +43,11 @@ func (t *StubTable) Lookup(ctx context.Context, k string) (string, bool, error) 
 		return "", false, errors.New("scripted table lookup failure")
 	}
 	v, ok := t.M[k]
+	if h := t.AfterLookup; h != nil {
+		t.mu.Unlock()
+		h(k)
+		t.mu.Lock()
+	}
 	return v, ok, nil
 }
 
@@ -56,6 +67,13 @@ func (t *StubTable) RemoveKey(k string) error {
 	simrt.Point("tbl:"+t.Label, "remove")
 	t.mu.Lock()
 	defer t.mu.Unlock()
+	if t.FailWrites > 0 {
+		t.FailWrites--
+		if s := simrt.Cur(); s != nil {
+			s.Stat("fault_table_write_error")
+		}
+		return errors.New("scripted table write failure")
+	}
 	delete(t.M, k)
 	return nil
 }
@@ -64,6 +82,13 @@ func (t *StubTable) SetKey(k, v string) error {
 	simrt.Point("tbl:"+t.Label, "set")
 	t.mu.Lock()
 	defer t.mu.Unlock()
+	if t.FailWrites > 0 {
+		t.FailWrites--
+		if s := simrt.Cur(); s != nil {
+			s.Stat("fault_table_write_error")
+		}
+		return errors.New("scripted table write failure")
+	}
 	if t.M == nil {
 		t.M = map[string]string{}
 	}
